@@ -270,7 +270,23 @@ def lyotBwdStop : Prog :=
 
 def zernike : Prog := lyotFwd
 
-/-- `VectorZernikeWavefrontSensorOptics`. -/
+/-- `VectorZernikeWavefrontSensorOptics` on a polarised wavefront (vector or Jones-matrix field): no
+stand-in is built, and the Jones elements (`HWP`, the mask) take the branch
+`wf = wavefront.copy(); wf.electric_field = field_dot(J, wf.electric_field)` — so the argument
+itself is copied once, by `HWP.forward(wavefront)` (found by the object-trace tie in round 4: the
+scalar program below creates 6 wavefronts and never copies the argument, the code on polarised input
+creates 5 and copies it once). -/
+def vectorZernikePol : Prog :=
+  ⟨[.newFrom 1 opProp [0] 0,            -- wf_foc = prop.forward(wavefront)
+    .copy 2 1, .setFieldNew 2 opJones [2],   -- HWP.forward(wf_foc)
+    .copy 3 1, .setFieldNew 3 opJones [3],   -- vZWFS_mask.forward(wf_foc)
+    .setFieldNew 1 opSub [2, 3],        -- wf_foc.electric_field = … - …
+    .newFrom 4 opPropBack [1] 1,        -- pup = prop.backward(wf_foc)
+    .copy 5 0, .setFieldNew 5 opJones [5],   -- HWP.forward(wavefront)
+    .inplace opRsub 4 [5]],             -- pup.electric_field[:] = … - pup.electric_field
+   4⟩
+
+/-- `VectorZernikeWavefrontSensorOptics`, scalar input. -/
 def vectorZernike : Prog :=
   ⟨[.newFrom 1 opProp [0] 0,
     .newFrom 1 opJones [1] 1,           -- wf_foc = Wavefront(wf_foc.electric_field, …, stokes) (scalar case)
@@ -403,7 +419,7 @@ def programs : List (String × Prog) :=
    ("magnifier", magnifier), ("newFrom", newFrom), ("copySetField", copySetField), ("chain", chain),
    ("copyThenChain", copyThenChain), ("lyotFwd", lyotFwd), ("lyotFwdStop", lyotFwdStop),
    ("lyotBwd", lyotBwd), ("lyotBwdStop", lyotBwdStop), ("zernike", zernike),
-   ("vectorZernike", vectorZernike), ("multiscaleFwd", multiscaleFwd),
+   ("vectorZernike", vectorZernike), ("vectorZernikePol", vectorZernikePol), ("multiscaleFwd", multiscaleFwd),
    ("multiscaleFwdStop", multiscaleFwdStop), ("multiscaleBwd", multiscaleBwd),
    ("multiscaleBwdStop", multiscaleBwdStop), ("vvcFwdScalar", vvcFwdScalar), ("vvcFwdPol", vvcFwdPol),
    ("vvcFwdScalarStop", vvcFwdScalarStop), ("vvcFwdPolStop", vvcFwdPolStop),
